@@ -224,6 +224,172 @@ theorem c04_json_token_aeskw (P : Prims) (L : AeadLaws P) (KL : KwLaws P) (O : O
   rw [hprot] at this
   exact this
 
+/-- **Flattened / one-recipient general JSON JWE with RSA key encryption**, `alg` in the protected header: encrypted to
+the public key, decrypted with the private key of the pair. -/
+theorem c04_json_token_rsa (P : Prims) (L : AeadLaws P) (KL : KwLaws P) (O : OctLaws P)
+    (hrsaB : ∀ a k c w, P.rsaEncrypt a k c = .ok w → IsBytes w)
+    (JL : ∀ v bs, P.jsonDumps v = .ok bs → IsBytes bs ∧ P.jsonLoads bs = .ok v)
+    (E : Env) (K : KeyEnv) (T : KeyTables) (C : EncConsts) (Z : ZipConsts) (reg : JweRegistry)
+    (prot : Dict) (aad : Option Bytes) (haadB : IsBytes (aad.getD [])) (general : Bool) (pt : Bytes) (k sk : Key) (hpair : sk.kty = k.kty ∧ sk.raw = k.raw ∧ k.handle = sk.handle) (e : Encrypted)
+    (algv : JVal) (alg : JweAlgRow) (hav : pyGetItemStr (.obj prot) "alg" = .ok algv) (hga : reg.getAlg algv = .ok alg)
+    (hc : alg.cls = "RSAAlgModel") (hmode : alg.directMode = false ∧ alg.agreement = false)
+    (h8 : ∀ enc encv, prot.get? "enc" = some encv → reg.getEnc encv = .ok enc → enc.ivSize % 8 = 0 ∧ enc.cekSize % 8 = 0)
+    (h : performEncrypt P E T C reg { kind := (if general then JweKind.general else JweKind.flat), prot := prot, aad := aad }
+      [{ header := none, key := k }] pt = .ok e)
+    (huse : sk.checkUse "enc" = .ok ()) (hop : sk.checkKeyOp E.ops "decrypt" = .ok ())
+    (hchk : reg.checkHeader (.obj prot) true = .ok ())
+    (hz : ZipUndone P Z reg prot pt) (js : Bytes) (hjs : P.jsonDumps (.obj prot) = .ok js) :
+    decryptJson P E K T Z reg (jsonOf e (b64e js) general) (.base (.key sk)) none = .ok (pt, prot) := by
+  obtain ⟨hbi, hbc, hbt, enc, encv, r', d', hencv, hge, hek, hrec, hlc, hli⟩ :=
+    performEncrypt_wrap P O E T C reg _ _ (by cases general <;> simp [eHeaders]) pt e algv alg hav hga hmode h
+  have hek0 := hek
+  unfold encryptCek at hek
+  simp only [hc, bind_eq_ok, pure_eq_ok, Prod.mk.injEq] at hek
+  obtain ⟨_, _, _, _, _, _, ek, hwrap, hobj, hr', _⟩ := hek
+  have hprot : e.obj.prot = prot := by rw [← hobj]
+  have hinj : ∀ enc2 encv2, prot.get? "enc" = some encv2 → reg.getEnc encv2 = .ok enc2 → enc2 = enc := by
+    intro enc2 encv2 h1 h2
+    have : some encv2 = some encv := by rw [← h1]; exact hencv
+    cases this
+    rw [hge] at h2; cases h2; rfl
+  obtain ⟨m0, hm0⟩ : ∃ m0 : JweMsg, m0 = { kind := (if general then JweKind.general else JweKind.flat), prot := prot, protSeg := (b64e js), iv := e.iv, unprotected := none, aad := nonEmptyBytes aad, ciphertext := e.ciphertext, tag := e.tag } := ⟨_, rfl⟩
+  obtain ⟨rd0, hrd0⟩ : ∃ rd0 : Recipient, rd0 = { header := none, key := sk, senderKey := none, encryptedKey := ek } := ⟨_, rfl⟩
+  have hrh : recipientHeaders m0 rd0 = prot := by
+    rw [hm0, hrd0]; cases general <;> simp [recipientHeaders]
+  have := c04_json_token P L JL E K T C Z reg _ general rfl _ pt e h ⟨by rw [← hobj], by rw [← hobj], by rw [← hobj]⟩ r' hrec ek
+    (by rw [← hr']; rfl)
+    ⟨hrsaB _ _ _ _ hwrap, hbi, hbc, hbt, haadB⟩ (by rw [hprot]) sk none huse none m0 js (by rw [hprot]; exact hjs)
+    (by rw [hm0, hprot, ← hobj]; rfl) rd0 (by rw [hrd0, ← hr']; simp [nonEmptyDict])
+    (by rw [hrd0]; simp [guessSenderKey])
+    (by
+      intro enc2 encv2 h1 h2
+      have := hinj enc2 encv2 h1 h2
+      subst this
+      have hd := c04_cek_rsa P KL E T alg enc2 hc hmode e.cek _ _ _ r' _ _ rd0 prot e.tag _ _ _ hek0
+        ⟨by rw [hrd0, ← hr']; exact hpair.1, by rw [hrd0, ← hr']; exact hpair.2.1, by rw [hrd0, ← hr']; exact hpair.2.2, by rw [hrd0, ← hr']⟩ (by rw [hrd0]; exact hop)
+      have hm0t : m0.tag = e.tag := by rw [hm0]
+      simp only [collectCeks, hrh, hchk, hav, hga, recipientCeks, bind, Except.bind, pure, Except.pure, List.append_nil, hm0t, hd])
+    (by
+      intro enc2 encv2 h1 h2
+      have := hinj enc2 encv2 h1 h2
+      subst this
+      have := h8 enc2 encv2 h1 h2
+      exact ⟨by omega, by omega⟩)
+    (by rw [hprot]; exact hz)
+  rw [hprot] at this
+  exact this
+
+/-! ## Direct key agreement in the JSON serializations: `epk` goes into the per-recipient header -/
+
+theorem performEncrypt_agree_direct_json (P : Prims) (O : OctLaws P) (E : Env) (T : KeyTables) (C : EncConsts) (reg : JweRegistry)
+    (prot : Dict) (aad : Option Bytes) (general : Bool) (k : Key) (pt : Bytes) (e : Encrypted)
+    (algv : JVal) (alg : JweAlgRow) (hav : pyGetItemStr (.obj prot) "alg" = .ok algv) (hga : reg.getAlg algv = .ok alg)
+    (hmode : alg.directMode = true ∧ alg.agreement = true)
+    (h : performEncrypt P E T C reg { kind := (if general then JweKind.general else JweKind.flat), prot := prot, aad := aad }
+      [{ header := none, key := k }] pt = .ok e) :
+    IsBytes e.iv ∧ IsBytes e.ciphertext ∧ IsBytes e.tag ∧ alg.checkKeyType k = .ok () ∧
+    ∃ enc encv eph epkd, prot.get? "enc" = some encv ∧ reg.getEnc encv = .ok enc ∧
+      P.genEphemeral 0 k = .ok eph ∧ eph.asDict T (some false) [] = .ok epkd ∧
+      e.obj = { kind := (if general then JweKind.general else JweKind.flat), prot := prot, aad := aad } ∧
+      e.recipients = [{ header := some [("epk", .obj epkd)], key := k, ephemeral := some eph, encryptedKey := some [] }] ∧
+      encryptAgreedKey P E alg enc e.obj { header := some [("epk", .obj epkd)], key := k, ephemeral := some eph } none = .ok e.cek ∧
+      e.cek.length * 8 = enc.cekSize ∧ e.iv.length = enc.ivSize / 8 := by
+  simp only [performEncrypt, bind_eq_ok, pure_eq_ok, ofOpt_ok_iff] at h
+  obtain ⟨encv, hencv, enc, henc, ⟨o1, rs1, cek, d1⟩, hpre, iv, hiv, m, hm, pseg, hpseg, ⟨ct, tag⟩, henc2, rs2, hpost, rfl⟩ := h
+  unfold preEncrypt at hpre
+  have heh : eHeaders { kind := (if general then JweKind.general else JweKind.flat), prot := prot, aad := aad } { header := none, key := k } = prot := by
+    cases general <;> simp [eHeaders]
+  rw [heh] at hpre
+  simp only [bind_eq_ok, hav, hga, Except.ok.injEq, exists_eq_left', hmode.1, hmode.2, if_true, pure_eq_ok, preEncrypt, Prod.mk.injEq,
+    ensure_eq_ok] at hpre
+  obtain ⟨_, _, ⟨o2, r2, d2⟩, hprep, _, _, kk, hagree, _, hsz, rfl, rfl, rfl, rfl⟩ := hpre
+  simp only [postEncrypt, bind_eq_ok, pure_eq_ok, Except.ok.injEq, exists_eq_left'] at hpost
+  subst hpost
+  unfold prepareEphemeral at hprep
+  have hadd : ∀ eph : Key, ∀ v : JVal,
+      addHeader { kind := (if general then JweKind.general else JweKind.flat), prot := prot, aad := aad }
+        { header := none, key := k, ephemeral := some eph } "epk" v =
+      ({ kind := (if general then JweKind.general else JweKind.flat), prot := prot, aad := aad },
+       { header := some [("epk", v)], key := k, ephemeral := some eph }) := by
+    intro eph v; cases general <;> rfl
+  simp only [bind_eq_ok, pure_eq_ok, Prod.mk.injEq, hadd] at hprep
+  obtain ⟨_, hkt, eph0, hgen, _, rfl, epkd, hexp, rfl, rfl, _⟩ := hprep
+  obtain ⟨hbi, hli⟩ := O.token _ _ _ hiv
+  obtain ⟨hbc, hbt⟩ := O.enc _ _ _ _ _ _ _ henc2
+  refine ⟨hbi, hbc, hbt, ?_, enc, encv, eph0, epkd, hencv, henc, hgen, hexp, rfl, rfl, hagree, by simpa using hsz, hli⟩
+  cases hu : alg.checkKeyType k with
+  | ok u => rfl
+  | error er => simp [hu] at hkt
+
+/-- **Flattened / one-recipient general JSON JWE with ECDH-ES** (direct): the ephemeral public key travels in the recipient's
+own header; the decrypting side merges it over the protected header and derives the same key. -/
+theorem c04_json_token_ecdh_es (P : Prims) (L : AeadLaws P) (O : OctLaws P)
+    (JL : ∀ v bs, P.jsonDumps v = .ok bs → IsBytes bs ∧ P.jsonLoads bs = .ok v)
+    (E : Env) (K : KeyEnv) (T : KeyTables) (C : EncConsts) (Z : ZipConsts) (reg : JweRegistry)
+    (prot : Dict) (aad : Option Bytes) (haadB : IsBytes (aad.getD [])) (general : Bool) (pt : Bytes) (pk sk : Key) (hkty : sk.kty = pk.kty)
+    (e : Encrypted)
+    (algv : JVal) (alg : JweAlgRow) (hav : pyGetItemStr (.obj prot) "alg" = .ok algv) (hga : reg.getAlg algv = .ok alg)
+    (hcls : (alg.cls == "ECDH1PUAlgModel") = false) (hmode : alg.directMode = true ∧ alg.agreement = true)
+    (hdh : ∀ eph epkd, P.genEphemeral 0 pk = .ok eph → eph.asDict T (some false) [] = .ok epkd →
+      ∃ epk, importEpk P T sk.kty (.obj epkd) = .ok epk ∧ exchangeDeriveKey P E sk epk = exchangeDeriveKey P E eph pk)
+    (h8 : ∀ enc encv, prot.get? "enc" = some encv → reg.getEnc encv = .ok enc → enc.ivSize % 8 = 0)
+    (h : performEncrypt P E T C reg { kind := (if general then JweKind.general else JweKind.flat), prot := prot, aad := aad }
+      [{ header := none, key := pk }] pt = .ok e)
+    (huse : sk.checkUse "enc" = .ok ())
+    (hchk : ∀ epkd, reg.checkHeader (.obj (Dict.update prot [("epk", .obj epkd)])) true = .ok ())
+    (hz : ZipUndone P Z reg prot pt) (js : Bytes) (hjs : P.jsonDumps (.obj prot) = .ok js) :
+    decryptJson P E K T Z reg (jsonOf e (b64e js) general) (.base (.key sk)) none = .ok (pt, prot) := by
+  obtain ⟨hbi, hbc, hbt, hktp, enc, encv, eph, epkd, hencv, hge, hgen, hexp, hobj, hrec, hagree, hsz, hli⟩ :=
+    performEncrypt_agree_direct_json P O E T C reg prot aad general pk pt e algv alg hav hga hmode h
+  obtain ⟨epk, himp, hsym⟩ := hdh eph epkd hgen hexp
+  have hprot : e.obj.prot = prot := by rw [hobj]
+  have hinj : ∀ enc2 encv2, prot.get? "enc" = some encv2 → reg.getEnc encv2 = .ok enc2 → enc2 = enc := by
+    intro enc2 encv2 h1 h2
+    have : some encv2 = some encv := by rw [← h1]; exact hencv
+    cases this
+    rw [hge] at h2; cases h2; rfl
+  have hkts : alg.checkKeyType sk = .ok () := by simpa [JweAlgRow.checkKeyType, hkty] using hktp
+  obtain ⟨m0, hm0⟩ : ∃ m0 : JweMsg, m0 = { kind := (if general then JweKind.general else JweKind.flat), prot := prot, protSeg := (b64e js), iv := e.iv, unprotected := none, aad := nonEmptyBytes aad, ciphertext := e.ciphertext, tag := e.tag } := ⟨_, rfl⟩
+  obtain ⟨rd0, hrd0⟩ : ∃ rd0 : Recipient, rd0 = { header := some [("epk", .obj epkd)], key := sk, senderKey := none, encryptedKey := [] } := ⟨_, rfl⟩
+  have hrh : recipientHeaders m0 rd0 = Dict.update prot [("epk", .obj epkd)] := by
+    rw [hm0, hrd0]; cases general <;> simp [recipientHeaders]
+  have hehe : eHeaders e.obj { header := some [("epk", .obj epkd)], key := pk, ephemeral := some eph } = Dict.update prot [("epk", .obj epkd)] := by
+    rw [hobj]; cases general <;> simp [eHeaders]
+  have hupd : ∀ kk, kk ≠ "epk" → (Dict.update prot [("epk", JVal.obj epkd)]).get? kk = prot.get? kk := by
+    intro kk hk
+    simp only [Dict.update, List.foldl]
+    exact Dict.get?_set_ne _ _ _ _ hk
+  have havm : pyGetItemStr (.obj (Dict.update prot [("epk", JVal.obj epkd)])) "alg" = .ok algv := by
+    simp only [pyGetItemStr] at hav ⊢
+    rw [hupd "alg" (by decide)]; exact hav
+  have := c04_json_token P L JL E K T C Z reg _ general rfl _ pt e h ⟨by rw [hobj], by rw [hobj], by rw [hobj]⟩ _ hrec [] rfl
+    ⟨(by intro x hx; cases hx), hbi, hbc, hbt, haadB⟩ (by rw [hprot]) sk none huse none m0 js (by rw [hprot]; exact hjs)
+    (by rw [hm0, hprot, hobj]; rfl) rd0 (by rw [hrd0]; simp [nonEmptyDict])
+    (by rw [hrd0]; simp [guessSenderKey])
+    (by
+      intro enc2 encv2 h1 h2
+      have := hinj enc2 encv2 h1 h2
+      subst this
+      have hak := c04_agreed_key_ecdh_es P E T alg enc2 hcls e.obj { header := some [("epk", .obj epkd)], key := pk, ephemeral := some eph } eph rfl
+        rd0 (Dict.update prot [("epk", .obj epkd)]) epkd epk e.cek hagree
+        (by simp only [Dict.update, List.foldl]; exact Dict.get?_set_self _ _ _) (by rw [hrd0]; exact himp) (by rw [hrd0]; exact hsym)
+        (by rw [hrd0]; exact hkts) (by rw [hehe]) (by rw [hehe]) (by rw [hehe]) (by rw [hehe])
+      have hd : decryptRecipient P E T alg enc2 (Dict.update prot [("epk", .obj epkd)]) rd0 e.tag = .ok e.cek := by
+        unfold decryptRecipient
+        have hek0 : rd0.encryptedKey.isEmpty = true := by rw [hrd0]; rfl
+        simp [hmode.1, hmode.2, hak, hek0, ensure, bind, Except.bind]
+      have hm0t : m0.tag = e.tag := by rw [hm0]
+      simp only [collectCeks, hrh, hchk epkd, havm, hga, recipientCeks, bind, Except.bind, pure, Except.pure, List.append_nil, hm0t, hd])
+    (by
+      intro enc2 encv2 h1 h2
+      have := hinj enc2 encv2 h1 h2
+      subst this
+      have := h8 enc2 encv2 h1 h2
+      exact ⟨by omega, hsz⟩)
+    (by rw [hprot]; exact hz)
+  rw [hprot] at this
+  exact this
+
 /-! ## The dict that `encrypt_json` returns is the rendering of `jsonOf` -/
 
 def jvalOfRecipient (r : JsonRecipient) : Dict :=
